@@ -68,6 +68,11 @@ def _cvc5_check(text, timeout_s):
 
 
 def check_one(text):
+    if text.startswith('; prefer-cvc5'):
+        # nonlinear closed lemmas: z3 would burn its whole portfolio before giving up
+        st2, cvsecs, reason2 = _cvc5_check(text, CVC5_TIMEOUT_S)
+        if st2 == 'unsat':
+            return 'unsat', 0.0, cvsecs, 'cvc5', ''
     # portfolio over random seeds: z3's quantifier instantiation is unstable on identical input, and an
     # `unsat` under any seed is a proof.  Short budgets first, the full budget last.
     z3secs = 0.0
@@ -109,7 +114,7 @@ def discharge(obs):
             trivial[i] = ('unsat', 0.0, 0.0, 'simplifier', '')
             texts.append(None)
         else:
-            texts.append(ob_to_smt2(ob))
+            texts.append(('; prefer-cvc5\n' if ob.info.get('prefer') == 'cvc5' else '') + ob_to_smt2(ob))
     cache = {}
     futs = {}
     for i, t in enumerate(texts):
